@@ -161,7 +161,9 @@ def teval(e: ast.AST, env: dict, leaf: Optional[Callable] = None, depth: int = 0
             return x
         if isinstance(e.op, ast.Not):
             if _is_arr(x):
-                raise NotEvaluable("not on a tensor")
+                if x.size != 1:
+                    raise ValueError("Boolean value of Tensor with more than one value is ambiguous")  # (as the library raises)
+                return not bool(x.reshape(-1)[0])
             return not x
         if isinstance(e.op, ast.Invert):
             if _is_arr(x) and x.dtype == bool:
